@@ -153,8 +153,8 @@ def readable_names(repo: Repo, R):
     keys = len(g.generators) == 1 and not g.generators[0].ifs and shared.prov_text(fi.node, g.generators[0].iter) in ("params.__params__.keys()", "params.__params__", "list(params.__params__)", "list(params.__params__.keys())")
     R.check(keys, rule, key_of(fi, "all-params"), fi.site, f"every parameter of the class takes part in the name, in declaration order: {keys}", why="two calls differing in an omitted parameter share a name")
     fr = repo.func(F_GENERATOR, "run")
-    sfx = pat.find("m.name += '(' + _unique_name(call.params) + ')'", fr.node)
-    hp = any(isinstance(n, ast.If) and ast.unparse(n.test) == "hasparams(call.gen.Params)" and bool(pat.find("m.name += '(' + _unique_name(call.params) + ')'", n)) for n in au.walk_no_nested(fr.node))
+    sfx = pat.find("$M.name += '(' + _unique_name(call.params) + ')'", fr.node)
+    hp = any(shared.cond_match(fr.node, c, "hasparams(call.gen.Params)", True, use_prov=False) for c, _b in sfx)
     R.check(bool(sfx) and hp, rule, key_of(fr, "suffix"), fr.site, f"generated modules are named <name>(<unique parameter name>) whenever the generator has parameters: {bool(sfx) and hp}", why="modules generated from different parameters share a name")
 
 
